@@ -60,15 +60,36 @@ Section C08.
   Qed.
 End C08.
 
-(* REFUTED (finding KF_C08_1): add_arguments_to_context registers parameters with a plain add, which does not
-   re-add a name that is visible in an ancestor - a parameter spelled like a module-level function is not
-   registered, and the call through it gets the module-level function *)
+(* Parameters are registered with is_argument=True (add_arguments_to_context; it was a plain add before fix 1134bd3,
+   finding KF_C08_1): a parameter spelled like a module-level function shadows it, at any depth of the scope chain *)
 Definition root_ex : scope := [mkSym "helper" KFunc].
-Definition after_params : ctx := ctx_add (ctx_add (ctx_push [root_ex]) (mkSym "helper" KName) false) (mkSym "x" KName) false.
-Lemma parameter_named_like_function_refuted :
-  get_call_target (fun _ => false) after_params "helper" = Some (mkSym "helper" KFunc)
+Definition after_params : ctx := ctx_add (ctx_add (ctx_push [root_ex]) (mkSym "helper" KName) true) (mkSym "x" KName) true.
+Lemma parameter_named_like_function_shadows :
+  get_call_target (fun _ => false) after_params "helper" = Some (mkSym "helper" KName)
   /\ get_call_target (fun _ => false) after_params "x" = Some (mkSym "x" KName).
 Proof. split; reflexivity. Qed.
+(* for every context: after adding a parameter p, a bare call to p gets the parameter *)
+Lemma scope_get_set sc s : scope_get (scope_set sc s) (s_name s) = Some s.
+Proof.
+  induction sc as [|x r IH]; cbn [scope_set scope_get]; [rewrite String.eqb_refl; reflexivity|].
+  destruct (String.eqb (s_name x) (s_name s)) eqn:He; cbn [scope_get]; [rewrite String.eqb_refl; reflexivity|].
+  rewrite He. exact IH.
+Qed.
+Lemma argument_add_shadows mexists c p :
+  replace_all "*" "" (without_call_brackets p) = p -> split_dot p = [p] -> starts_with "@" p = false ->
+  contains "[]" p = false -> contains "." p = false ->
+  get_call_target mexists (ctx_add (ctx_push c) (mkSym p KName) true) p = Some (mkSym p KName).
+Proof.
+  intros H1 H2 H3 H4 H5.
+  assert (Hget : ctx_get (ctx_add (ctx_push c) (mkSym p KName) true) p = Some (mkSym p KName)).
+  { unfold ctx_add, ctx_push. rewrite Bool.andb_false_r. cbn [ctx_get]. cbn [scope_set scope_get s_name]. rewrite String.eqb_refl. reflexivity. }
+  unfold get_call_target. rewrite H1, H3, H4, H2. rewrite String.eqb_refl. cbn [negb andb]. rewrite H5. cbn [andb]. exact Hget.
+Qed.
+(* a plain add (the behaviour before the fix) would not shadow *)
+Lemma plain_add_would_not_shadow :
+  get_call_target (fun _ => false) (ctx_add (ctx_push [root_ex]) (mkSym "helper" KName) false) "helper" = Some (mkSym "helper" KFunc).
+Proof. reflexivity. Qed.
+
 (* REFUTED (finding KF_C08_2): the target depends on the callee only through its name without ANY call brackets, so
    the call on a call result helper(x)(y) - spelled "helper()()" - gets helper itself as target and is expanded *)
 Lemma target_depends_only_on_the_unbracketed_name :
@@ -79,7 +100,3 @@ Lemma call_on_call_result_targets_the_function_refuted :
   without_call_brackets "helper()()" = without_call_brackets "helper"
   /\ get_call_target (fun _ => false) [root_ex] "helper()()" = Some (mkSym "helper" KFunc).
 Proof. split; reflexivity. Qed.
-(* with is_argument=True the parameter would shadow *)
-Lemma is_argument_add_would_shadow :
-  get_call_target (fun _ => false) (ctx_add (ctx_push [root_ex]) (mkSym "helper" KName) true) "helper" = Some (mkSym "helper" KName).
-Proof. reflexivity. Qed.
